@@ -7,11 +7,20 @@ under the deterministic scheduler of `harness/sim/sched.py`:
     whose `Lock`, `Event` and `Thread` are scheduler-aware, so `Rmcp.transaction_lock` blocks by
     scheduling decision and the REAL `call_repeatedly` loop (started by the real
     `establish_session`) is the keep-alive thread — its `stopped.wait(interval)` is a virtual
-    timer that elapses a given number of times;
+    timer that elapses a given number of times, each time at a moment the scheduler chooses; the
+    wake-up of `stopped.wait`, `stopped.set()` and the (optional) `t.join()` of the stopper are
+    scheduling points, and one worker may end with the REAL `close_session()` (after the
+    application's own barrier: the other workers have finished), so the stop timing is explored:
+    the keep-alive between wake-up and lock acquisition, queued on the lock, inside the lock, or
+    asleep, when the event is set;
   * `Rmcp._sock` is a fake socket in front of a reference BMC written from the IPMI v1.5
     figures (RMCP/ASF ping, session set-up, one reply per datagram, FIFO);
-  * `Rmcp.next_sequence_number`, `Session.sequence_number` and `Rmcp._q` are wrapped so that
-    every access is logged with the id of the accessing thread (and is a scheduling point).
+  * `Rmcp.next_sequence_number`, `Session.sequence_number`, `Session.activated` and `Rmcp._q` are
+    wrapped so that every access is logged with the id of the accessing thread (and is a
+    scheduling point).
+
+The variant of the model (does the stopper returned by `call_repeatedly` join the keep-alive thread?)
+is probed on the real code and cross-checked with what the translator read from the AST.
 
 For every explored schedule
   (1) the Spec monitor (Lean, `Spec.Threads.accepts`, through `drv_c14 mon`) judges the REAL wire
@@ -31,10 +40,12 @@ from ..translate import threads as threads_t
 ID = 'C14'
 TARGETS = ['PyIpmi.Props.C14', 'drv_c14']
 LEVEL = 'proof'
-RULE = ('one case = one complete schedule of the real Rmcp shared by 2..4 real threads (1..3 workers issuing 1..3 '
-        'raw requests each, plus in most configurations the real call_repeatedly keep-alive loop firing 1..2 times) '
-        'under the deterministic scheduler.  Systematic: every schedule with <= 2 (thorough: 3) preemptions at '
-        'lock/socket granularity (yield before acquire, release, sendto, recvfrom, call entry, timer) for a fixed '
+RULE = ('one case = one complete schedule of the real Rmcp shared by 2..4 real threads (1..3 workers issuing 0..3 '
+        'raw requests each, plus in most configurations the real call_repeatedly keep-alive loop firing 1..2 times; '
+        'in about a third of the configurations one worker ends with the real close_session() after the other '
+        'workers have finished) under the deterministic scheduler.  Systematic: every schedule with <= 2 '
+        '(thorough: 3) preemptions at lock/socket granularity (yield before acquire, release, sendto, recvfrom, '
+        'call entry, wake-up of stopped.wait, stopped.set, join, barrier) for a fixed '
         'list of configurations, and every schedule with <= 1 (thorough: 2) preemptions at shared-access '
         'granularity (additionally every load/store of next_sequence_number and Session.sequence_number).  Random: '
         'seeded schedules at source-line granularity (sys.settrace on rmcp.py/session.py/ipmb.py) and at '
@@ -48,14 +59,26 @@ ASSUMPTIONS = [
     'atomicity granularity: a switch can happen before any source line of rmcp.py/session.py/ipmb.py and before any '
     'access to the shared attributes; CPython can also switch between bytecodes inside a line and inside C calls '
     '(GIL release in sendto/recvfrom/hashlib) - not exhibited; the wrapped attributes make `x += 1` two steps',
-    'threading.Lock is modelled by a scheduler-aware lock with the same acquire/release/with semantics; real timer '
-    'threads are not used: Event.wait(interval) of the real call_repeatedly loop elapses a chosen number of times, '
-    'thread start/stop timing of call_repeatedly and close_session are not explored',
+    'threading.Lock / Event / Thread are modelled by scheduler-aware objects with the same acquire/release/with, '
+    'set/wait and start/join semantics; real timers are not used: Event.wait(interval) of the real call_repeatedly '
+    'loop ends, whenever the scheduler runs that thread, with "set" if the event is set by then and otherwise with '
+    '"interval elapsed" (a chosen number of times at most) - every placement of the wake-up relative to the other '
+    'threads\' steps is a schedule; the race INSIDE CPython\'s Event.wait between a time-out and a concurrent set() '
+    'has the same two outcomes',
+    'session teardown: exactly one thread calls close_session(), once, after the other application threads have '
+    'finished their calls (the application\'s own barrier - a request issued by an application thread during or '
+    'after close_session() is the application\'s error, not judged); thread START timing of call_repeatedly is not '
+    'explored (the keep-alive thread exists before the first worker request); establish_session itself is C06',
     'socket buffering: the fake socket is a FIFO, the reference BMC answers every datagram immediately and '
     'correctly; loss, delay, duplication and stale frames belong to C04',
     'model covers max_retries = 0 and unbridged targets (the configuration explored)',
+    'the read of Session.sequence_number made while close_session formats the session for its debug-log line is not '
+    'part of the logged access sequence (it feeds the log text only); Close Session is answered with a completion '
+    'code only, so "the reply the closing thread was handed" is identified by the datagram whose reply that thread '
+    'took from the socket last, not by the payload',
 ]
-TRUSTED = ['harness/translate/threads.py', 'harness/sim/sched.py', 'harness/props/c14.py (fake socket, reference BMC, access wrappers)']
+TRUSTED = ['harness/translate/threads.py', 'harness/sim/sched.py (scheduler, Lock/Event/Thread stand-ins)',
+           'harness/props/c14.py (fake socket, reference BMC, access wrappers)']
 
 PASSWORD = b'secret'
 SID = 0x02030405
@@ -156,6 +179,8 @@ class Env(object):
         self.wire = []
         self.results = []
         self.cur_tx = {}
+        self.last_rx = {}
+        self.quiet = set()          # tids that are formatting the session for the debug log
         self.notes = []
         self.stopped = False
 
@@ -207,6 +232,7 @@ class FakeSock(object):
         if on:
             s.emit('rx', serial)
             env.wire.append('R:%d:%d' % (s.tid(), serial))
+            env.last_rx[s.tid()] = serial
         return reply, ('bmc', 623)
 
 
@@ -242,15 +268,15 @@ def _classes():
     if key in _CLASSES:
         return _CLASSES[key]
 
-    def logged(name, ld, st):
+    def logged(name, ld, st, show=lambda v: v):
         slot = '_c14_' + name
 
         def get(self):
             env = self.__dict__.get('_c14')
-            if env is not None and env.sched.active():
+            if env is not None and env.sched.active() and env.sched.tid() not in env.quiet:
                 env.pre_access()
                 v = self.__dict__.get(slot, 0)
-                env.var(ld, v)
+                env.var(ld, show(v))
                 return v
             return self.__dict__.get(slot, 0)
 
@@ -258,12 +284,26 @@ def _classes():
             env = self.__dict__.get('_c14')
             if env is not None and env.sched.active():
                 env.pre_access()
-                env.var(st, v)
+                env.var(st, show(v))
             self.__dict__[slot] = v
         return property(get, set_)
 
     class TSession(Session):
         sequence_number = logged('ss', 'ldSS', 'stSS')
+        activated = logged('act', 'ldAct', 'stAct', show=lambda v: 1 if v else 0)
+
+        def __str__(self):
+            # `log().debug('Close Session %s' % self._session)` formats the session eagerly; that read of
+            # the sequence number feeds the log text only and is not part of the logged access sequence
+            env = self.__dict__.get('_c14')
+            if env is None or not env.sched.active():
+                return Session.__str__(self)
+            tid = env.sched.tid()
+            env.quiet.add(tid)
+            try:
+                return Session.__str__(self)
+            finally:
+                env.quiet.discard(tid)
 
     class TRmcp(R.Rmcp):
         next_sequence_number = logged('ns', 'ldNS', 'stNS')
@@ -281,7 +321,14 @@ def _classes():
             except Exception as e:
                 env.results.append((tid, list(env.cur_tx.get(tid, [])), None, type(e).__name__))
                 raise
-            env.results.append((tid, list(env.cur_tx.get(tid, [])), _serial_of(r), None))
+            got = _serial_of(r)
+            netfn = kw.get('netfn', a[2] if len(a) > 2 else None)
+            cmdid = kw.get('cmdid', a[3] if len(a) > 3 else None)
+            if got is None and (netfn, cmdid) == (6, 0x3c) and len(bytes(bytearray(r))) == 1:
+                # Close Session answers with a completion code only: nothing in the payload names the
+                # datagram it answers; take the datagram whose reply this thread took from the socket last
+                got = env.last_rx.get(tid)
+            env.results.append((tid, list(env.cur_tx.get(tid, [])), got, None))
             return r
 
     _CLASSES[key] = (TRmcp, TSession)
@@ -300,7 +347,8 @@ class Out(object):
 
 
 def execute(cfg, policy, record=False):
-    """Run the real code once under `policy`.  cfg: workers [[calls, cmd]…], ka, auth, ss0, ns0, gran."""
+    """Run the real code once under `policy`.  cfg: workers [[calls, cmd]…], ka, auth, ss0, ns0, gran,
+    closer (index of the worker that ends with close_session(), or None)."""
     from pyipmi.interfaces import rmcp as R
     sched = S.Scheduler(policy, cfg['gran'], trace_files=_trace_files())
     if record:
@@ -323,33 +371,45 @@ def execute(cfg, policy, record=False):
         sess.set_session_type_rmcp('bmc', 623)
         sess.set_auth_type_user('admin', PASSWORD.decode())
 
-        def worker(calls, cmd):
+        nworkers = len(cfg['workers'])
+
+        def worker(me, calls, cmd):
             def body():
                 for _ in range(calls):
                     try:
                         rm.send_and_receive_raw(rm.host_target, 0, 6, bytes([cmd]))
                     except Exception:   # recorded by the wrapper; the thread goes on like a caller would
                         pass
+                if cfg.get('closer') == me:
+                    # the application's barrier: nobody else uses the interface any more
+                    sched.yield_point('await', None, enabled=lambda: all(
+                        sched.threads[i].done for i in range(nworkers) if i != me))
+                    sched.emit('await')
+                    try:
+                        rm.close_session()
+                    except S.SchedAbort:
+                        raise
+                    except Exception as e:  # noqa
+                        env.notes.append('close_session raised %s' % type(e).__name__)
             return body
-        for calls, cmd in cfg['workers']:
-            sched.spawn(worker(calls, cmd))
-        if cfg.get('closer'):       # only used by _teardown_observation
-            def closer():
-                try:
-                    rm.close_session()
-                except Exception:
-                    pass
-            sched.spawn(closer)
+        for i, (calls, cmd) in enumerate(cfg['workers']):
+            sched.spawn(worker(i, calls, cmd))
         rm.establish_session(sess)          # real handshake; starts the real keep-alive loop
         env.rxq[:] = []
         sess.sequence_number = cfg['ss0']
         rm.next_sequence_number = cfg['ns0']
 
         def on_idle():
-            stop = getattr(rm, '_stop_keep_alive', None)
-            if stop and not env.stopped:
+            # nothing can move: what is left is the keep-alive loop asleep in stopped.wait() with no further
+            # interval to elapse (a daemon thread).  Wake it up so that the OS thread ends; this is the
+            # harness' clean-up, not part of the run (nothing is logged any more).
+            # (Only then: an application thread that cannot move is a deadlock, e.g. a join that waits for a
+            # loop nobody has stopped.)
+            if shim.events and not env.stopped and all(sched.threads[i].done for i in range(nworkers)):
                 env.stopped = True
-                stop()
+                sched.mute = True
+                for e in shim.events:
+                    e.flag = True
                 return True
             return False
         sched.on_idle = on_idle
@@ -366,6 +426,8 @@ def execute(cfg, policy, record=False):
     out.notes = env.notes + env.bmc.notes
     out.exc = [(t.tid, type(t.exc).__name__) for t in sched.threads if t.exc is not None]
     out.final_ss = sess.__dict__.get('_c14_ss')
+    out.final_act = bool(sess.__dict__.get('_c14_act'))
+    out.harness_stopped = env.stopped
     return out
 
 
@@ -381,14 +443,31 @@ def _res_tokens(results):
 
 
 def _model_threads(cfg):
-    th = ['%d:%d' % (c, cmd) for c, cmd in cfg['workers']]
-    if cfg['ka']:
-        th.append('%d:1' % cfg['ka'])
-    return th
+    return ['%d:%d' % (c, cmd) for c, cmd in cfg['workers']]
+
+
+def _closer(cfg):
+    return cfg.get('closer')
 
 
 def _expected_calls(cfg):
-    return sum(c for c, _ in cfg['workers']) + cfg['ka']
+    """(min, max) number of calls of a complete run: the workers' requests, Close Session if a thread
+    closes, and the keep-alive's: all `ka` of them when nobody stops it, any number up to `ka` otherwise."""
+    base = sum(c for c, _ in cfg['workers']) + (1 if _closer(cfg) is not None else 0)
+    return (base if _closer(cfg) is not None and cfg['ka'] else base + cfg['ka'], base + cfg['ka'])
+
+
+_VARIANT = {}
+
+
+def variant_joins():
+    """Does the stopper returned by the real `call_repeatedly` join the keep-alive thread?  Probed by
+    running the real close_session() under the scheduler, without preemption."""
+    key = repo.REPO
+    if key not in _VARIANT:
+        out = execute(_cfg([(0, 1)], 1, 'none', 5, 0, 'sync', closer=0), S.ReplayPolicy([]))
+        _VARIANT[key] = any(tok.endswith(':join') for tok in out.trace)
+    return _VARIANT[key]
 
 
 def _switches(out):
@@ -428,6 +507,14 @@ def judge(ctx, cfg, out, drv, model=True, choices=None):
         flags = dict(x.split('=') for x in verdict.split()[1:]) if verdict.startswith('bad ') else {}
         if flags.get('X') == '0':
             sig, what = 'C14:exchanges-interleaved', 'request/reply exchanges of different threads are interleaved on the socket'
+        elif flags.get('C') == '0':
+            after = _after_close(out.wire)
+            sig, what = 'C14:datagram-after-close', (
+                'a datagram is transmitted after Close Session (%s)%s' % (
+                    ', '.join('thread %s%s cmd %#x session seq %s' % (
+                        t, ' = the keep-alive thread' if cfg['ka'] and int(t) == len(cfg['workers']) else '', int(c), q)
+                        for t, q, c in after),
+                    '; the session sequence numbers are not strictly increasing' if flags.get('S') == '0' else ''))
         elif flags.get('S') == '0':
             sig, what = 'C14:session-sequence-not-increasing', 'session sequence numbers do not strictly increase in transmission order'
         elif flags.get('O') == '0':
@@ -435,24 +522,34 @@ def judge(ctx, cfg, out, drv, model=True, choices=None):
         else:
             sig, what = 'C14:monitor-input', 'wire log not understood by the monitor: ' + verdict
         sigs.append(sig)
-        ctx.violate(sig, what, case, expected='Spec.Threads.accepts (X: tx/rx pairs of one thread, S: increasing, O: own reply)',
+        ctx.violate(sig, what, case, expected='Spec.Threads.accepts (X: tx/rx pairs of one thread, S: increasing, O: own reply, '
+                    'C: nothing after Close Session)',
                     observed={'monitor': verdict, 'wire': out.wire, 'results': rtoks,
                               'errors': [r[3] for r in out.results if r[3]], 'thread_exceptions': out.exc})
-    elif len(out.results) != _expected_calls(cfg):
+    elif not (_expected_calls(cfg)[0] <= len(out.results) <= _expected_calls(cfg)[1]):
         sigs.append('C14:call-count')
         ctx.violate('C14:call-count', 'a thread did not make the calls it was asked to make', case,
-                    expected=_expected_calls(cfg), observed={'results': rtoks, 'thread_exceptions': out.exc})
+                    expected='%d..%d calls' % _expected_calls(cfg), observed={'results': rtoks, 'thread_exceptions': out.exc})
+    elif _closer(cfg) is not None and out.final_act:
+        sigs.append('C14:session-left-active')
+        ctx.violate('C14:session-left-active', 'close_session() returned and the session is still marked activated', case,
+                    expected='Session.activated == False', observed={'results': rtoks, 'notes': out.notes})
     if model:
         xl = 1 if cfg['auth'] == 'md5' else 0
-        ans = drv.ask('run %d %d %d %s | %s' % (xl, cfg['ns0'], cfg['ss0'], ','.join(_model_threads(cfg)) or '-',
-                                               ' '.join(out.trace)))
+        cl = _closer(cfg)
+        ans = drv.ask('run %d %d %d %s %s %s %d | %s' % (
+            xl, cfg['ns0'], cfg['ss0'], ','.join(_model_threads(cfg)) or '-', cfg['ka'] if cfg['ka'] else '-',
+            cl if cl is not None else '-', 1 if variant_joins() else 0, ' '.join(out.trace)))
         ok = False
         if ans.startswith('ok wire'):
             body = ans[len('ok wire'):].split()
             i = body.index('res')
             j = body.index('mon')
             mwire, mres = body[:i], body[i + 1:j]
-            ok = (mwire == out.wire and sorted(mres) == sorted(rtoks) and body[j + 1] == '1' and body[j + 3] == '1')
+            # same wire log, same results, same verdict of the monitor, every thread finished (or the
+            # keep-alive loop asleep), same value of Session.activated
+            ok = (mwire == out.wire and sorted(mres) == sorted(rtoks) and (body[j + 1] == '1') == (verdict == 'ok')
+                  and body[j + 3] == '1' and (body[j + 5] == '1') == out.final_act)
         if not ok:
             d = {'what': 'trace', 'case': case, 'model': ans[:300],
                  'code': 'trace=%s wire=%s res=%s' % (' '.join(out.trace)[:600], ' '.join(out.wire), ' '.join(rtoks))}
@@ -462,18 +559,69 @@ def judge(ctx, cfg, out, drv, model=True, choices=None):
     return sigs
 
 
+def _after_close(wire):
+    """(tid, session seq, cmd) of the datagrams transmitted after the first Close Session"""
+    out, closed = [], False
+    for w in wire:
+        p = w.split(':')
+        if p[0] != 'T':
+            continue
+        if closed:
+            out.append((p[1], p[3], p[5]))
+        if p[5] == '60':
+            closed = True
+    return out
+
+
 # ------------------------------------------------------------------------- exploration
-def _cfg(workers, ka, auth='none', ss0=0x10, ns0=4, gran='sync'):
-    return {'workers': [list(w) for w in workers], 'ka': ka, 'auth': auth, 'ss0': ss0, 'ns0': ns0, 'gran': gran}
+def _cfg(workers, ka, auth='none', ss0=0x10, ns0=4, gran='sync', closer=None):
+    c = {'workers': [list(w) for w in workers], 'ka': ka, 'auth': auth, 'ss0': ss0, 'ns0': ns0, 'gran': gran}
+    if closer is not None:
+        c['closer'] = closer
+    return c
+
+
+def _stop_timing(cfg, out):
+    """Where was the keep-alive thread when the closing thread set the event?"""
+    if _closer(cfg) is None or not cfg['ka']:
+        return None
+    ka = str(len(cfg['workers']))
+    state = 'asleep'
+    for tok in out.trace:
+        p = tok.split(':')
+        if p[1] == 'stopSet':
+            return state
+        if p[0] != ka:
+            continue
+        if p[1] == 'tick':
+            state = 'between-wake-up-and-lock'
+        elif p[1] == 'acq':
+            state = 'inside-lock'
+        elif p[1] == 'rel':
+            state = 'asleep'
+        elif p[1] == 'kaExit':
+            state = 'ended'
+    return None
 
 
 def _measure(ctx, cfg, out):
     ctx.count('gran:' + cfg['gran'])
     ctx.count('threads:%d' % out.nthreads)
-    ctx.count('calls:%d' % _expected_calls(cfg))
+    ctx.count('calls:%d' % len(out.results))
     ctx.count('auth:' + cfg['auth'])
     if cfg['ka']:
         ctx.count('with-keep-alive')
+    if _closer(cfg) is not None:
+        ctx.count('with-close_session')
+        st = _stop_timing(cfg, out)
+        if st:
+            ctx.count('stop-set-while-keep-alive:' + st)
+            if st == 'between-wake-up-and-lock' or st == 'inside-lock':
+                ka = str(len(cfg['workers']))
+                kacalls = [w for w in out.wire if w.startswith('T:%s:' % ka)]
+                closes = [i for i, w in enumerate(out.wire) if w.startswith('T:') and w.endswith(':60')]
+                if closes and kacalls and out.wire.index(kacalls[-1]) < closes[0]:
+                    ctx.count('keep-alive-call-in-flight-at-stop-completed-before-Close-Session')
     sw = _switches(out)
     ctx.count('switches:%s' % ('0' if sw == 0 else '1-2' if sw <= 2 else '3-8' if sw <= 8 else '9-30' if sw <= 30 else '>30'))
     seen = {}
@@ -575,7 +723,8 @@ def _systematic(ctx, drv, cfg, bound, st, limit, should_stop):
         out = _one(ctx, drv, cfg, S.ReplayPolicy(prefix), st, record=True)
         return out.record if out.status == 'complete' else None
     n, trunc = S.explore(ex, bound, limit=limit, should_stop=should_stop)
-    key = 'systematic %s %s ka=%d bound=%d' % (cfg['gran'], 'x'.join(str(c) for c, _ in cfg['workers']), cfg['ka'], bound)
+    key = 'systematic %s %s ka=%d%s bound=%d' % (cfg['gran'], 'x'.join(str(c) for c, _ in cfg['workers']), cfg['ka'],
+                                                 '' if _closer(cfg) is None else ' closer=%d' % _closer(cfg), bound)
     ctx.extra.setdefault('systematic', {})[key] = {'schedules': n, 'exhausted': not trunc}
     return n
 
@@ -594,26 +743,40 @@ def _random_cfg(rng, gran):
     ss0 = rng.choice([0xfffffffd, 0xfffffffe, 0xffffffff]) if r < 0.12 else \
         rng.choice([0, 1, 0xff, 0xffff]) if r < 0.25 else rng.randrange(0xfffffff0)
     ns0 = rng.choice([61, 62, 63]) if rng.random() < 0.25 else rng.randrange(64)
-    return _cfg(workers, ka, auth, ss0, ns0, gran)
+    closer = None
+    if rng.random() < 0.35:
+        closer = rng.randrange(nw)
+        if rng.random() < 0.4:
+            workers[closer][0] = 0          # a thread that only closes the session
+        if ka == 0 and rng.random() < 0.8:
+            ka = rng.choice([1, 2])
+    return _cfg(workers, ka, auth, ss0, ns0, gran, closer)
 
 
-# (granularity, workers, keep-alive firings, preemption bound quick, thorough); None = not in that
-# tier.  Ordered by cost so that a loaded machine cuts the most expensive ones first.
+# (granularity, workers, keep-alive firings, preemption bound quick, thorough, closing worker); None = not
+# in that tier.  Ordered by cost so that a loaded machine cuts the most expensive ones first.
 SYSTEMATIC = [
-    ('sync', [(1, 1), (1, 1)], 0, 2, 4),
-    ('access', [(2, 1), (1, 1)], 0, 1, 2),
-    ('sync', [(2, 1), (2, 1)], 0, 2, 3),
-    ('sync', [(3, 1), (2, 1)], 0, 2, 3),
-    ('sync', [(2, 1), (1, 4)], 1, 1, 2),
-    ('access', [(1, 1), (1, 1)], 0, 2, 3),
-    ('sync', [(2, 1), (2, 1)], 1, 1, 2),
-    ('access', [(1, 1), (1, 1)], 1, 1, 2),
-    ('sync', [(1, 1), (1, 1), (1, 1)], 0, 2, 3),
-    ('sync', [(1, 1), (1, 1)], 1, 2, 3),
-    ('sync', [(2, 1), (2, 1), (2, 1)], 0, None, 2),
-    ('access', [(2, 1), (2, 1)], 1, None, 1),
-    ('sync', [(2, 1), (2, 4), (1, 1)], 1, None, 1),
-    ('sync', [(3, 1), (3, 1)], 2, None, 2),
+    ('sync', [(0, 1)], 1, 3, 4, 0),              # close_session() against one keep-alive tick
+    ('sync', [(1, 1), (1, 1)], 0, 2, 4, None),
+    ('sync', [(1, 4)], 2, 2, 3, 0),              # one request, then close_session(); two ticks
+    ('access', [(0, 1)], 1, 2, 3, 0),
+    ('access', [(2, 1), (1, 1)], 0, 1, 2, None),
+    ('sync', [(1, 1), (0, 1)], 1, 2, 3, 1),      # the closing thread waits for a worker
+    ('sync', [(2, 1), (2, 1)], 0, 2, 3, None),
+    ('sync', [(3, 1), (2, 1)], 0, 2, 3, None),
+    ('sync', [(2, 1), (1, 4)], 1, 1, 2, None),
+    ('access', [(1, 1), (1, 1)], 0, 2, 3, None),
+    ('sync', [(2, 1), (2, 1)], 1, 1, 2, None),
+    ('access', [(1, 1), (1, 1)], 1, 1, 2, None),
+    ('sync', [(1, 1), (1, 4)], 2, 1, 2, 0),
+    ('sync', [(1, 1), (1, 1), (1, 1)], 0, 2, 3, None),
+    ('sync', [(1, 1), (1, 1)], 1, 2, 3, None),
+    ('access', [(1, 1), (1, 4)], 1, 1, 2, 1),
+    ('sync', [(2, 1), (2, 1), (2, 1)], 0, None, 2, None),
+    ('access', [(2, 1), (2, 1)], 1, None, 1, None),
+    ('sync', [(2, 1), (2, 4), (1, 1)], 1, None, 1, 2),
+    ('sync', [(3, 1), (3, 1)], 2, None, 2, None),
+    ('sync', [(0, 1)], 0, None, 2, 0),           # close_session() without a keep-alive thread
 ]
 
 
@@ -642,7 +805,7 @@ def _explore_all(ctx, drv, effort):
             if bound is None:
                 continue
             cfg = _cfg(row[1], row[2], auths[i % 3], ss0=0xfffffffe if i % 4 == 3 else 0x20 + i,
-                       ns0=63 if i % 3 == 2 else 4, gran=row[0])
+                       ns0=63 if i % 3 == 2 else 4, gran=row[0], closer=row[5])
             _systematic(ctx, drv, cfg, bound, st, 60000, lambda: time.time() > t_sys)
         # ---- C: random, source-line granularity;  D: random, shared-access granularity
         n_line = n_acc = 0
@@ -675,27 +838,15 @@ def _keepalive_probe(ctx):
                      'a second thread issuing one Get Device ID', 'threads=%d calls by it=%d' % (out.nthreads, len(ka)))
 
 
-def _teardown_observation(ctx):
-    """NOT part of the property (its quantifier is threads issuing requests inside an active
-    session; set-up/tear-down is C06): one thread calls close_session() while the keep-alive
-    fires once, all schedules with <= 2 preemptions.  Recorded in the evidence only: in how many
-    schedules the keep-alive's Get Device ID leaves after Close Session (close_session sets the
-    stop event but does not wait for a keep-alive request already in flight)."""
-    cfg = _cfg([], 1, 'none', 16, 4, 'sync')
-    cfg['closer'] = True
-    seen = {'schedules': 0, 'get_device_id_after_close_session': 0, 'example': None}
-
-    def ex(prefix):
-        out = execute(cfg, S.ReplayPolicy(prefix), record=True)
-        seen['schedules'] += 1
-        cmds = [w.split(':')[5] for w in out.wire if w.startswith('T:')]
-        if '60' in cmds and cmds.index('60') < len(cmds) - 1:
-            seen['get_device_id_after_close_session'] += 1
-            if seen['example'] is None:
-                seen['example'] = {'choices': S.rle(out.choices), 'wire': out.wire}
-        return out.record if out.status == 'complete' else None
-    S.explore(ex, 2, limit=200)
-    ctx.extra['observation_outside_quantifier:close_session_vs_keepalive'] = seen
+def _variant_probe(ctx):
+    """The variant of the model is what the real stopper does; the translator read the same from the AST."""
+    joins = variant_joins()
+    ctx.extra['stopper_joins_keepalive_thread'] = joins
+    shape = ctx.extra.get('source_shape') or {}
+    if 'stopperJoins' in shape and bool(shape['stopperJoins']) != joins:
+        ctx.disagree('variant', {'probe': 'close_session() with the keep-alive asleep, no preemption'},
+                     'translator: stopperJoins=%s (%s)' % (shape['stopperJoins'], shape.get('stopperText')),
+                     'real stopper %s the keep-alive thread' % ('joins' if joins else 'does not join'))
 
 
 def run(ctx):
@@ -704,7 +855,7 @@ def run(ctx):
         ctx.disagree('driver', {}, 'pong', 'no answer')
         return
     _keepalive_probe(ctx)
-    _teardown_observation(ctx)
+    _variant_probe(ctx)
     _explore_all(ctx, drv, ctx.tier)
 
 
@@ -732,12 +883,15 @@ def replay(ctx, v):
     q = _Quiet()
     sigs = judge(q, cfg, out, drv, model=False, choices=choices)
     print('configuration: %s' % cfg)
+    print('stopper returned by call_repeatedly on this tree: %s' % (
+        'sets the event and joins the keep-alive thread' if variant_joins() else 'sets the event only'))
     print('schedule: %d recorded choices%s' % (len(choices), '' if pol.diverged is None else
                                                ' (recorded choice %d was not enabled on this tree; continued without preemption)' % pol.diverged))
     print('status: %s' % out.status)
     print('wire log (T:tid:serial:session_seq:rq_seq:cmd / R:tid:serial):')
     print('  ' + ' '.join(out.wire))
     print('results (tid:sent:got): ' + ' '.join(_res_tokens(out.results)))
+    print('accesses (tid:event): ' + ' '.join(out.trace))
     for x in q.violations:
         print('VIOLATED: %s  [%s]' % (x['what'], x['observed'].get('monitor') if isinstance(x['observed'], dict) else x['observed']))
     if not q.violations:
